@@ -179,10 +179,14 @@ def run_check(H, pid, tier, seed, nproc, write_evidence=True, only=None):
     for cand in candidates:
         bycond.setdefault(cand['cond'], []).append(cand)
     picked = []
-    while len(picked) < MAXR and any(bycond.values()):
+    PERC = info.get('max_replays_per_cond', 6)
+    taken = {}
+    while len(picked) < MAXR and any(bycond[c] and taken.get(c, 0) < PERC for c in bycond):
         for c in list(bycond):
-            if bycond[c]:
+            if bycond[c] and taken.get(c, 0) < PERC and len(picked) < MAXR:
+                # prefer candidates with distinct labels
                 picked.append(bycond[c].pop(0))
+                taken[c] = taken.get(c, 0) + 1
     if picked:
         rres = run_parallel(_replay_child, [(H, c['witness']) for c in picked], min(nproc, 8), 900)
         for cand, (st, r) in zip(picked, rres):
